@@ -20,6 +20,7 @@ import (
 	"fmt"
 	stdio "io"
 	"math"
+	"sort"
 	"strings"
 
 	"github.com/pkg/errors"
@@ -146,8 +147,15 @@ func (a AddressDecMap) Encode(w stdio.Writer) error {
 		return errors.WithMessage(err, "encoding map length")
 	}
 
-	for i, addr := range a {
-		id := int(i)
+	// The encoding must not depend on the iteration order of the map: channel
+	// IDs, persistence keys and signatures are computed over it.
+	ids := make([]int, 0, l)
+	for i := range a {
+		ids = append(ids, int(i))
+	}
+	sort.Ints(ids)
+	for _, id := range ids {
+		addr := a[BackendID(id)]
 		if id < math.MinInt32 || id > math.MaxInt32 {
 			return errors.New("map index out of bounds")
 		}
@@ -159,7 +167,7 @@ func (a AddressDecMap) Encode(w stdio.Writer) error {
 
 		err = perunio.Encode(w, addr)
 		if err != nil {
-			return errors.WithMessagef(err, "encoding %d-th address map entry", i)
+			return errors.WithMessagef(err, "encoding address map entry of backend %d", id)
 		}
 	}
 	return nil
